@@ -11,7 +11,6 @@ import (
 	"strconv"
 	"strings"
 	"sync"
-	"unicode/utf8"
 
 	"github.com/renbou/grpcbridge/bridgedesc"
 	"github.com/renbou/grpcbridge/grpcadapter"
@@ -183,12 +182,6 @@ func (w *worker) runCore(f []string) string {
 		}
 		code, reason := webbridge.VerifWebsocketError(err)
 		return fmt.Sprintf("code=%d form=%d", code, b01(strings.HasPrefix(reason, "code ")))
-	case "wstrunc": // wstrunc <hex message (valid UTF-8)>: the close reason of a plain error with that text
-		_, reason := webbridge.VerifWebsocketError(errors.New(string(unhex(f[1]))))
-		if !utf8.ValidString(reason) {
-			return "INVALID-UTF8 " + common.HexS(reason)
-		}
-		return common.HexS(reason)
 	case "wrap": // wrap <req|resp> <kind>
 		err, ok := errKind(f[2])
 		if !ok {
